@@ -1,75 +1,985 @@
-//! temporary probe (will be replaced by the C08 runner)
+//! C08 runner.  Parent: builds the case list (well-formed frames from the extracted ENCODER via
+//! `ocaml/c08/driver gen`, every truncation point, field mutations, compressed variants, random
+//! bytes, the reproducers of the repaired crash inputs) and has the REAL decoders run on them in
+//! CHILD processes (`--child`), each decode on a 2 MiB-stack thread under catch_unwind, the child
+//! under `ulimit -v` so that an out-of-proportion allocation aborts only the child.  A child that
+//! dies or does not answer within the per-input timeout is attributed to the single input it was
+//! working on (`abort` / `timeout`) and restarted behind it.
+//!
+//! line: `<KIND> <features> <mode> <framehex> | [dc=<hex>|dc=!] <status> m=<max single alloc> t=<total alloc>`
 use bytes::Bytes;
+use scylla_cql::frame::frame_errors::{FrameBodyExtensionsParseError, FrameHeaderParseError};
 use scylla_cql::frame::protocol_features::ProtocolFeatures;
-use scylla_cql::frame::response::{Response, ResponseOpcode};
+use scylla_cql::frame::request::query::PagingStateResponse;
+use scylla_cql::frame::response::error::{DbError, OperationType, WriteType};
+use scylla_cql::frame::response::event::{
+    ClientRoutesChangeEvent, Event, EventV2, SchemaChangeEvent, SchemaChangeType, StatusChangeEvent,
+    TopologyChangeEvent,
+};
+use scylla_cql::frame::response::result::{
+    CollectionType, ColumnSpec, ColumnType, NativeType, ResultWithDeserializedMetadata,
+};
+use scylla_cql::frame::response::{
+    Response, ResponseV2, ResponseWithDeserializedMetadata as RM, ResponseWithDeserializedMetadataV2 as RM2,
+};
+use scylla_cql::frame::{Compression, parse_response_body_extensions, read_response_frame};
+use scylla_cql_core::deserialize::row::ColumnIterator;
+use std::alloc::{GlobalAlloc, Layout, System};
+use std::cell::Cell;
+use std::fmt::Write as _;
+use std::io::{BufRead, Write};
+use vh::*;
 
-fn rows_frame_custom(ty: &str) -> Vec<u8> {
-    let mut b = vec![];
-    b.extend_from_slice(&2i32.to_be_bytes()); // Rows
-    b.extend_from_slice(&1i32.to_be_bytes()); // flags: global table spec
-    b.extend_from_slice(&1i32.to_be_bytes()); // col count
-    for s in ["ks", "t", "c"] {
-        b.extend_from_slice(&(s.len() as u16).to_be_bytes());
-        b.extend_from_slice(s.as_bytes());
+// ------------------------------------------------------------------ counting allocator
+struct Counting;
+thread_local! {
+    static MAXREQ: Cell<usize> = const { Cell::new(0) };
+    static TOTAL: Cell<usize> = const { Cell::new(0) };
+}
+fn note(sz: usize) {
+    let _ = MAXREQ.try_with(|m| if sz > m.get() { m.set(sz) });
+    let _ = TOTAL.try_with(|t| t.set(t.get().wrapping_add(sz)));
+}
+unsafe impl GlobalAlloc for Counting {
+    unsafe fn alloc(&self, l: Layout) -> *mut u8 {
+        note(l.size());
+        unsafe { System.alloc(l) }
     }
-    b.extend_from_slice(&0u16.to_be_bytes()); // custom
-    b.extend_from_slice(&(ty.len() as u16).to_be_bytes());
-    b.extend_from_slice(ty.as_bytes());
-    b.extend_from_slice(&0i32.to_be_bytes()); // rows count
-    b
+    unsafe fn alloc_zeroed(&self, l: Layout) -> *mut u8 {
+        note(l.size());
+        unsafe { System.alloc_zeroed(l) }
+    }
+    unsafe fn dealloc(&self, p: *mut u8, l: Layout) {
+        unsafe { System.dealloc(p, l) }
+    }
+    unsafe fn realloc(&self, p: *mut u8, l: Layout, new: usize) -> *mut u8 {
+        note(new);
+        unsafe { System.realloc(p, l, new) }
+    }
+}
+#[global_allocator]
+static A: Counting = Counting;
+
+// ------------------------------------------------------------------ canonical rendering
+fn hx(b: &[u8]) -> String {
+    let mut s = String::with_capacity(b.len() * 2 + 1);
+    s.push('x');
+    for x in b {
+        write!(s, "{:02x}", x).unwrap();
+    }
+    s
+}
+fn lst<T>(l: impl IntoIterator<Item = T>, f: impl Fn(T) -> String) -> String {
+    format!("[{}]", l.into_iter().map(f).collect::<Vec<_>>().join(","))
+}
+fn opt<T>(o: Option<T>, f: impl Fn(T) -> String) -> String {
+    match o {
+        None => "N".into(),
+        Some(v) => format!("S({})", f(v)),
+    }
+}
+fn b01(b: bool) -> &'static str {
+    if b { "1" } else { "0" }
+}
+fn native_name(n: &NativeType) -> String {
+    format!("{:?}", n)
+}
+fn r_type(t: &ColumnType) -> String {
+    match t {
+        ColumnType::Native(n) => native_name(n),
+        ColumnType::Collection { frozen, typ } => match typ {
+            CollectionType::List(e) => format!("List({},{})", b01(*frozen), r_type(e)),
+            CollectionType::Set(e) => format!("Set({},{})", b01(*frozen), r_type(e)),
+            CollectionType::Map(k, v) => format!("Map({},{},{})", b01(*frozen), r_type(k), r_type(v)),
+            _ => "UnknownCollection".into(),
+        },
+        ColumnType::Vector { typ, dimensions } => format!("Vec({},{})", r_type(typ), dimensions),
+        ColumnType::UserDefinedType { frozen, definition } => format!(
+            "Udt({},{},{},{})",
+            b01(*frozen),
+            hx(definition.keyspace.as_bytes()),
+            hx(definition.name.as_bytes()),
+            lst(definition.field_types.iter(), |(n, t)| format!("({},{})", hx(n.as_bytes()), r_type(t)))
+        ),
+        ColumnType::Tuple(es) => format!("Tup({})", lst(es.iter(), r_type)),
+        _ => "UnknownType".into(),
+    }
+}
+fn r_col(c: &ColumnSpec) -> String {
+    format!(
+        "({},{},{},{})",
+        hx(c.table_spec().ks_name().as_bytes()),
+        hx(c.table_spec().table_name().as_bytes()),
+        hx(c.name().as_bytes()),
+        r_type(c.typ())
+    )
+}
+fn r_wt(w: &WriteType) -> String {
+    match w {
+        WriteType::Other(s) => format!("Other({})", hx(s.as_bytes())),
+        w => format!("{:?}", w),
+    }
+}
+fn r_db(e: &DbError) -> String {
+    match e {
+        DbError::Unavailable { consistency, required, alive } => {
+            format!("Unavailable({},{},{})", *consistency as u16, required, alive)
+        }
+        DbError::WriteTimeout { consistency, received, required, write_type } => {
+            format!("WriteTimeout({},{},{},{})", *consistency as u16, received, required, r_wt(write_type))
+        }
+        DbError::ReadTimeout { consistency, received, required, data_present } => {
+            format!("ReadTimeout({},{},{},{})", *consistency as u16, received, required, b01(*data_present))
+        }
+        DbError::ReadFailure { consistency, received, required, numfailures, data_present } => format!(
+            "ReadFailure({},{},{},{},{})",
+            *consistency as u16, received, required, numfailures, b01(*data_present)
+        ),
+        DbError::FunctionFailure { keyspace, function, arg_types } => format!(
+            "FunctionFailure({},{},{})",
+            hx(keyspace.as_bytes()),
+            hx(function.as_bytes()),
+            lst(arg_types.iter(), |s| hx(s.as_bytes()))
+        ),
+        DbError::WriteFailure { consistency, received, required, numfailures, write_type } => format!(
+            "WriteFailure({},{},{},{},{})",
+            *consistency as u16, received, required, numfailures, r_wt(write_type)
+        ),
+        DbError::AlreadyExists { keyspace, table } => {
+            format!("AlreadyExists({},{})", hx(keyspace.as_bytes()), hx(table.as_bytes()))
+        }
+        DbError::Unprepared { statement_id } => format!("Unprepared({})", hx(statement_id)),
+        DbError::RateLimitReached { op_type, rejected_by_coordinator } => {
+            let op = match op_type {
+                OperationType::Read => 0,
+                OperationType::Write => 1,
+                OperationType::Other(x) => *x,
+            };
+            format!("RateLimitReached({},{})", op, b01(*rejected_by_coordinator))
+        }
+        DbError::Other(c) => format!("Other({})", c),
+        e => format!("{:?}", e), // unit variants: ServerError, SyntaxError, ...
+    }
+}
+fn r_ct(c: &SchemaChangeType) -> String {
+    format!("{:?}", c)
+}
+fn r_sc(s: &SchemaChangeEvent) -> String {
+    match s {
+        SchemaChangeEvent::KeyspaceChange { change_type, keyspace_name } => {
+            format!("Keyspace({},{})", r_ct(change_type), hx(keyspace_name.as_bytes()))
+        }
+        SchemaChangeEvent::TableChange { change_type, keyspace_name, object_name } => {
+            format!("Table({},{},{})", r_ct(change_type), hx(keyspace_name.as_bytes()), hx(object_name.as_bytes()))
+        }
+        SchemaChangeEvent::TypeChange { change_type, keyspace_name, type_name } => {
+            format!("Type({},{},{})", r_ct(change_type), hx(keyspace_name.as_bytes()), hx(type_name.as_bytes()))
+        }
+        SchemaChangeEvent::FunctionChange { change_type, keyspace_name, function_name, arguments } => format!(
+            "Function({},{},{},{})",
+            r_ct(change_type),
+            hx(keyspace_name.as_bytes()),
+            hx(function_name.as_bytes()),
+            lst(arguments.iter(), |s| hx(s.as_bytes()))
+        ),
+        SchemaChangeEvent::AggregateChange { change_type, keyspace_name, aggregate_name, arguments } => format!(
+            "Aggregate({},{},{},{})",
+            r_ct(change_type),
+            hx(keyspace_name.as_bytes()),
+            hx(aggregate_name.as_bytes()),
+            lst(arguments.iter(), |s| hx(s.as_bytes()))
+        ),
+    }
+}
+fn r_addr(a: &std::net::SocketAddr) -> String {
+    let ip = match a.ip() {
+        std::net::IpAddr::V4(v) => v.octets().to_vec(),
+        std::net::IpAddr::V6(v) => v.octets().to_vec(),
+    };
+    format!("({},{})", hx(&ip), a.port())
+}
+fn r_topo(t: &TopologyChangeEvent) -> String {
+    match t {
+        TopologyChangeEvent::NewNode(a) => format!("Topology(1,{})", r_addr(a)),
+        TopologyChangeEvent::RemovedNode(a) => format!("Topology(0,{})", r_addr(a)),
+    }
+}
+fn r_status(t: &StatusChangeEvent) -> String {
+    match t {
+        StatusChangeEvent::Up(a) => format!("Status(1,{})", r_addr(a)),
+        StatusChangeEvent::Down(a) => format!("Status(0,{})", r_addr(a)),
+    }
+}
+fn r_ev(e: &Event) -> String {
+    match e {
+        Event::TopologyChange(t) => r_topo(t),
+        Event::StatusChange(t) => r_status(t),
+        Event::SchemaChange(s) => format!("Schema({})", r_sc(s)),
+    }
+}
+fn r_ev2(e: &EventV2) -> String {
+    match e {
+        EventV2::TopologyChange(t) => r_topo(t),
+        EventV2::StatusChange(t) => r_status(t),
+        EventV2::SchemaChange(s) => format!("Schema({})", r_sc(s)),
+        EventV2::ClientRoutesChange(ClientRoutesChangeEvent::UpdateNodes { connection_ids, host_ids }) => format!(
+            "ClientRoutes({},{})",
+            lst(connection_ids.iter(), |s| hx(s.as_bytes())),
+            lst(host_ids.iter(), |u| hx(u.as_bytes()))
+        ),
+        _ => "UnknownEvent".into(),
+    }
+}
+/// Err(class) when forcing the rows fails
+fn r_result(r: &ResultWithDeserializedMetadata) -> Result<String, String> {
+    Ok(match r {
+        ResultWithDeserializedMetadata::Void => "Void".into(),
+        ResultWithDeserializedMetadata::SetKeyspace(k) => format!("SetKeyspace({})", hx(k.keyspace_name.as_bytes())),
+        ResultWithDeserializedMetadata::SchemaChange(s) => format!("SchemaChange({})", r_sc(&s.event)),
+        ResultWithDeserializedMetadata::Prepared(p) => {
+            let mut pk: Vec<(u16, u16)> = p.prepared_metadata.pk_indexes.iter().map(|x| (x.index, x.sequence)).collect();
+            pk.sort();
+            format!(
+                "Prepared({},{},{},{},{},{},{},{})",
+                hx(&p.id),
+                opt(p.result_metadata.id(), hx),
+                p.prepared_metadata.flags,
+                p.prepared_metadata.col_count,
+                lst(pk.iter(), |(i, s)| format!("({},{})", i, s)),
+                lst(p.prepared_metadata.col_specs.iter(), r_col),
+                p.result_metadata.col_count(),
+                lst(p.result_metadata.col_specs().iter(), r_col)
+            )
+        }
+        ResultWithDeserializedMetadata::Rows((rows, paging)) => {
+            let ps = match paging {
+                PagingStateResponse::HasMorePages { state } => {
+                    Some(state.as_bytes_slice().map(|a| a.to_vec()).unwrap_or_default())
+                }
+                PagingStateResponse::NoMorePages => None,
+            };
+            let md = rows.metadata();
+            let mut out_rows: Vec<String> = Vec::new();
+            if !md.col_specs().is_empty() {
+                let it = rows.rows_iter::<ColumnIterator>().map_err(|e| classify(&format!("{:?}", e)))?;
+                for row in it {
+                    let row = row.map_err(|e| classify(&format!("{:?}", e)))?;
+                    let mut cells = Vec::new();
+                    for c in row {
+                        let c = c.map_err(|e| classify(&format!("{:?}", e)))?;
+                        cells.push(opt(c.slice, |s| hx(s.as_slice())));
+                    }
+                    out_rows.push(format!("[{}]", cells.join(",")));
+                }
+            }
+            format!(
+                "Rows({},{},{},{},{},[{}])",
+                opt(ps, |v| hx(&v)),
+                opt(md.id(), hx),
+                md.col_count(),
+                lst(md.col_specs().iter(), r_col),
+                rows.rows_count(),
+                out_rows.join(",")
+            )
+        }
+    })
+}
+fn sorted_kv<V>(m: impl IntoIterator<Item = (String, V)>, f: impl Fn(V) -> String) -> String {
+    let mut v: Vec<(String, String)> = m.into_iter().map(|(k, v)| (hx(k.as_bytes()), f(v))).collect();
+    v.sort();
+    lst(v, |(k, v)| format!("({},{})", k, v))
 }
 
-fn decode(body: Vec<u8>) -> String {
-    let f = ProtocolFeatures::default();
-    match Response::deserialize(&f, ResponseOpcode::Result, Bytes::from(body), None) {
-        Err(e) => format!("err1 {e}"),
-        Ok(r) => match r.deserialize_metadata() {
-            Err(e) => format!("err2 {e}"),
-            Ok(_) => "ok".to_string(),
+// ------------------------------------------------------------------ error classes
+const CLASSES: &[&str] = &[
+    "IoError", "TooFewBytesReceived", "UTF8DeserializationError", "TryFromIntError", "InvalidValueLength",
+    "UnknownConsistency", "InvalidInetLength", "UnknownResultId", "UnknownEventType",
+    "UnknownTargetOfSchemaChange", "UnknownTypeOfChange", "ConnectionHostIdsLengthMismatch",
+    "HostIdsUuidParseError", "IdPresentForEmptyMetadata", "NonZeroPagingState", "TypeNotImplemented",
+    "TypeNestingTooDeep", "UnknownSimpleCustomTypeName", "UnknownComplexCustomTypeName", "UnexpectedCharacter",
+    "IntegerParseError", "UnexpectedEndOfInput", "BadHexString", "InvalidUtf8", "InvalidParameterCount",
+];
+/// innermost known error variant named in the Debug rendering (string payloads removed)
+fn classify(dbg: &str) -> String {
+    let mut clean = String::with_capacity(dbg.len());
+    let mut in_str = false;
+    let mut esc = false;
+    for ch in dbg.chars() {
+        if in_str {
+            if esc {
+                esc = false;
+            } else if ch == '\\' {
+                esc = true;
+            } else if ch == '"' {
+                in_str = false;
+            }
+        } else if ch == '"' {
+            in_str = true;
+        } else {
+            clean.push(ch);
+        }
+    }
+    let mut best: Option<(usize, &str)> = None;
+    for k in CLASSES {
+        if let Some(p) = clean.rfind(k) {
+            if best.map(|(bp, _)| p > bp).unwrap_or(true) {
+                best = Some((p, k));
+            }
+        }
+    }
+    match best {
+        Some((_, "TypeNestingTooDeep")) if clean.contains("CustomTypeParseError(TypeNestingTooDeep") => {
+            "CustomTypeNestingTooDeep".into()
+        }
+        Some((_, k)) => k.to_string(),
+        None => format!("Unclassified:{}", clean.chars().filter(|c| !c.is_whitespace()).take(80).collect::<String>()),
+    }
+}
+fn low_class(e: &scylla_cql::frame::frame_errors::LowLevelDeserializationError) -> String {
+    classify(&format!("{:?}", e))
+}
+
+// ------------------------------------------------------------------ one decode
+struct Cfg {
+    rate_limit: Option<i32>,
+    metadata_id: bool,
+    v2: bool,
+    compression: Option<Compression>,
+}
+fn parse_cfg(ft: &str, mode: &str) -> Cfg {
+    let mut rate_limit = None;
+    let mut metadata_id = false;
+    for part in ft.split(',') {
+        if let Some(v) = part.strip_prefix("rl:") {
+            if v != "-" {
+                rate_limit = Some(if let Some(r) = v.strip_prefix('-') {
+                    -(i64::from_str_radix(r, 16).unwrap()) as i32
+                } else {
+                    i64::from_str_radix(v, 16).unwrap() as i32
+                });
+            }
+        } else if let Some(v) = part.strip_prefix("mid:") {
+            metadata_id = v == "1";
+        }
+    }
+    let mb = mode.as_bytes();
+    Cfg {
+        rate_limit,
+        metadata_id,
+        v2: mb[0] == b'2',
+        compression: match mb[1] {
+            b'l' => Some(Compression::Lz4),
+            b's' => Some(Compression::Snappy),
+            _ => None,
         },
     }
 }
+fn unhex(s: &str) -> Vec<u8> {
+    if s == "-" {
+        return vec![];
+    }
+    (0..s.len() / 2).map(|i| u8::from_str_radix(&s[2 * i..2 * i + 2], 16).unwrap()).collect()
+}
 
-fn main() {
-    let a: Vec<String> = std::env::args().collect();
-    let mode = a[1].as_str();
-    if mode == "sizes" {
-        use scylla_cql::frame::response::result::*;
-        use std::mem::size_of;
-        println!("ColumnType {} CowField {} ColumnSpec {} PkIdx {} String {} PayloadEntry {} MultimapEntry {} TableSpec {}",
-            size_of::<ColumnType<'static>>(), size_of::<(std::borrow::Cow<'static, str>, ColumnType<'static>)>(),
-            size_of::<ColumnSpec<'static>>(), size_of::<PartitionKeyIndex>(), size_of::<String>(),
-            size_of::<(String, Bytes)>(), size_of::<(String, Vec<String>)>(), size_of::<TableSpec<'static>>());
-        return;
-    }
-    if mode == "lz4" {
-        let n: u32 = a[2].parse().unwrap();
-        let mut body = n.to_be_bytes().to_vec();
-        body.extend_from_slice(&[0x10, 0x41, 0, 0, 0]);
-        let t0 = std::time::Instant::now();
-        let r = scylla_cql::frame::parse_response_body_extensions(1, Some(scylla_cql::frame::Compression::Lz4), Bytes::from(body));
-        println!("lz4 claimed={} -> {:?} in {:?}", n, r.map(|x| x.body.len()).map_err(|e| e.to_string()), t0.elapsed());
-        let st = std::fs::read_to_string("/proc/self/status").unwrap();
-        for l in st.lines() { if l.starts_with("VmPeak") || l.starts_with("VmHWM") { println!("{l}"); } }
-        return;
-    }
-    let n: usize = a.get(2).map(|s| s.parse().unwrap()).unwrap_or(10);
-    let ty = match mode {
-        "open" => "ListType(".to_string(),
-        "nest" => format!("{}Int32Type{}", "SetType(".repeat(n), ")".repeat(n)),
-        "nestbad" => format!("{}Int32Type,Int32Type{}", "SetType(".repeat(n), ")".repeat(n)),
-        "nestopen" => "SetType(".repeat(n),
-        "expo" => "ListType(Int32Type,".repeat(n),
-        "expo2" => format!("{}{}", "ListType(Int32Type,".repeat(n), ")".repeat(n)),
-        _ => mode.to_string(),
+/// the pipeline of the property: read_response_frame -> parse_response_body_extensions ->
+/// Response(V2)::deserialize -> deserialize_metadata -> rows_iter
+fn decode(cfg: &Cfg, frame: &[u8]) -> String {
+    let mut features = ProtocolFeatures::default();
+    features.rate_limit_error = cfg.rate_limit;
+    features.scylla_metadata_id_supported = cfg.metadata_id;
+    let mut reader: &[u8] = frame;
+    let (params, opcode, body): (_, _, Bytes) = match futures::executor::block_on(read_response_frame(&mut reader)) {
+        Ok(x) => x,
+        Err(e) => {
+            let c = match e {
+                FrameHeaderParseError::HeaderIoError(_) => "HeaderIoError",
+                FrameHeaderParseError::FrameFromClient => "FrameFromClient",
+                FrameHeaderParseError::VersionNotSupported(_) => "VersionNotSupported",
+                FrameHeaderParseError::UnknownResponseOpcode(_) => "UnknownResponseOpcode",
+                FrameHeaderParseError::BodyChunkIoError(_, _) => "BodyChunkIoError",
+                FrameHeaderParseError::ConnectionClosed(_, _) => "ConnectionClosed",
+                _ => "OtherHeaderError",
+            };
+            return format!("err hdr {}", c);
+        }
     };
-    let t0 = std::time::Instant::now();
+    let ext = match parse_response_body_extensions(params.flags, cfg.compression, body) {
+        Ok(x) => x,
+        Err(e) => {
+            let c = match &e {
+                FrameBodyExtensionsParseError::NoCompressionNegotiated => "NoCompressionNegotiated".to_string(),
+                FrameBodyExtensionsParseError::TraceIdParse(l)
+                | FrameBodyExtensionsParseError::WarningsListParse(l)
+                | FrameBodyExtensionsParseError::CustomPayloadMapParse(l) => low_class(l),
+                FrameBodyExtensionsParseError::SnapDecompressError(_)
+                | FrameBodyExtensionsParseError::Lz4DecompressError(_) => "DecompressError".to_string(),
+                _ => "OtherExtError".to_string(),
+            };
+            return format!("err ext {}", c);
+        }
+    };
+    let head = format!(
+        "F({},{},{},{},{},{},{},",
+        params.version,
+        params.flags,
+        params.stream,
+        opcode as u8,
+        opt(ext.trace_id, |u| hx(u.as_bytes())),
+        lst(ext.warnings.iter(), |s| hx(s.as_bytes())),
+        opt(ext.custom_payload.as_ref(), |m| sorted_kv(m.iter().map(|(k, v)| (k.clone(), v.clone())), |v| hx(&v)))
+    );
+    let body_err = |dbg: String| format!("err body {}", classify(&dbg));
+    let resp = if cfg.v2 {
+        let r = match ResponseV2::deserialize(&features, opcode, ext.body, None) {
+            Ok(r) => r,
+            Err(e) => return body_err(format!("{:?}", e)),
+        };
+        let r = match r.deserialize_metadata() {
+            Ok(r) => r,
+            Err(e) => return body_err(format!("{:?}", e)),
+        };
+        match &r {
+            RM2::Error(e) => format!("Error({},{})", r_db(&e.error), hx(e.reason.as_bytes())),
+            RM2::Ready => "Ready".into(),
+            RM2::Authenticate(a) => format!("Authenticate({})", hx(a.authenticator_name.as_bytes())),
+            RM2::Supported(s) => format!(
+                "Supported({})",
+                sorted_kv(s.options.iter().map(|(k, v)| (k.clone(), v.clone())), |v| lst(v.iter(), |s| hx(s.as_bytes())))
+            ),
+            RM2::Result(res) => match r_result(res) {
+                Ok(s) => format!("Result({})", s),
+                Err(c) => return format!("err body {}", c),
+            },
+            RM2::Event(e) => format!("Event({})", r_ev2(e)),
+            RM2::AuthChallenge(a) => format!("AuthChallenge({})", opt(a.authenticate_message.as_ref(), |v| hx(v))),
+            RM2::AuthSuccess(a) => format!("AuthSuccess({})", opt(a.success_message.as_ref(), |v| hx(v))),
+            _ => "UnknownResponse".into(),
+        }
+    } else {
+        let r = match Response::deserialize(&features, opcode, ext.body, None) {
+            Ok(r) => r,
+            Err(e) => return body_err(format!("{:?}", e)),
+        };
+        let r = match r.deserialize_metadata() {
+            Ok(r) => r,
+            Err(e) => return body_err(format!("{:?}", e)),
+        };
+        match &r {
+            RM::Error(e) => format!("Error({},{})", r_db(&e.error), hx(e.reason.as_bytes())),
+            RM::Ready => "Ready".into(),
+            RM::Authenticate(a) => format!("Authenticate({})", hx(a.authenticator_name.as_bytes())),
+            RM::Supported(s) => format!(
+                "Supported({})",
+                sorted_kv(s.options.iter().map(|(k, v)| (k.clone(), v.clone())), |v| lst(v.iter(), |s| hx(s.as_bytes())))
+            ),
+            RM::Result(res) => match r_result(res) {
+                Ok(s) => format!("Result({})", s),
+                Err(c) => return format!("err body {}", c),
+            },
+            RM::Event(e) => format!("Event({})", r_ev(e)),
+            RM::AuthChallenge(a) => format!("AuthChallenge({})", opt(a.authenticate_message.as_ref(), |v| hx(v))),
+            RM::AuthSuccess(a) => format!("AuthSuccess({})", opt(a.success_message.as_ref(), |v| hx(v))),
+        }
+    };
+    format!("ok {}{})", head, resp)
+}
+
+/// what the negotiated codec makes of the body (the model treats the codec as an oracle)
+fn codec_oracle(cfg: &Cfg, frame: &[u8]) -> Option<String> {
+    let comp = cfg.compression?;
+    if frame.len() < 9 || frame[1] & 1 == 0 {
+        return None;
+    }
+    let len = u32::from_be_bytes([frame[5], frame[6], frame[7], frame[8]]) as usize;
+    if frame.len() < 9 + len {
+        return None;
+    }
+    Some(match scylla_cql::frame::decompress(&frame[9..9 + len], comp) {
+        Ok(v) => format!("dc={}", hex_bytes(&v)),
+        Err(_) => "dc=!".to_string(),
+    })
+}
+
+fn run_case(case: &str) -> String {
+    let f: Vec<&str> = case.split_whitespace().collect();
+    if f.len() != 4 {
+        return "error bad-case".into();
+    }
+    let cfg = parse_cfg(f[1], f[2]);
+    let frame = unhex(f[3]);
+    let oracle = codec_oracle(&cfg, &frame);
+    MAXREQ.with(|m| m.set(0));
+    TOTAL.with(|t| t.set(0));
+    let status = match catch(std::panic::AssertUnwindSafe(|| decode(&cfg, &frame))) {
+        Ok(s) => s,
+        Err(m) => {
+            format!("panic {}", m.split_whitespace().collect::<Vec<_>>().join("_").chars().take(80).collect::<String>())
+        }
+    };
+    let (m, t) = (MAXREQ.with(|m| m.get()), TOTAL.with(|t| t.get()));
+    match oracle {
+        Some(o) => format!("{} {} m={} t={}", o, status, m, t),
+        None => format!("{} m={} t={}", status, m, t),
+    }
+}
+
+// ------------------------------------------------------------------ child
+fn child_main(file: &str, start: usize, end: usize) {
+    let cases: Vec<String> = std::fs::read_to_string(file).unwrap().lines().map(|s| s.to_string()).collect();
     let h = std::thread::Builder::new()
-        .stack_size(2 << 20)
+        .stack_size(2 << 20) // Tokio's default worker stack
         .spawn(move || {
-            let s = decode(rows_frame_custom(&ty));
-            s.chars().take(200).collect::<String>()
+            let out = std::io::stdout();
+            for i in start..end.min(cases.len()) {
+                let r = run_case(&cases[i]);
+                let mut o = out.lock();
+                writeln!(o, "{} {}", i, r).unwrap();
+                o.flush().unwrap();
+            }
         })
         .unwrap();
-    println!("{:?} in {:?}", h.join(), t0.elapsed());
+    let _ = h.join();
+}
+
+// ------------------------------------------------------------------ parent: run cases in children
+fn run_in_children(cases: &[String], infile: &str, per_input_timeout_s: u64, workers: usize) -> Vec<String> {
+    std::fs::write(infile, cases.join("\n") + "\n").unwrap();
+    let exe = std::env::current_exe().unwrap();
+    let n = cases.len();
+    let chunk = n.div_ceil(workers.max(1));
+    let mut handles = vec![];
+    for w in 0..workers {
+        let (lo, hi) = (w * chunk, ((w + 1) * chunk).min(n));
+        if lo >= hi {
+            continue;
+        }
+        let exe = exe.clone();
+        let infile = infile.to_string();
+        handles.push(std::thread::spawn(move || {
+            let mut res: Vec<(usize, String)> = vec![];
+            let mut next = lo;
+            while next < hi {
+                // address-space limit: an out-of-proportion allocation fails fast in the child
+                let cmd = format!("ulimit -v 4194304; exec '{}' --child '{}' {} {}", exe.display(), infile, next, hi);
+                let mut ch = std::process::Command::new("sh")
+                    .arg("-c")
+                    .arg(&cmd)
+                    .stdout(std::process::Stdio::piped())
+                    .stderr(std::process::Stdio::null())
+                    .spawn()
+                    .expect("spawn child");
+                let so = ch.stdout.take().unwrap();
+                let (tx, rx) = std::sync::mpsc::channel::<String>();
+                let rd = std::thread::spawn(move || {
+                    for l in std::io::BufReader::new(so).lines() {
+                        match l {
+                            Ok(l) => {
+                                if tx.send(l).is_err() {
+                                    break;
+                                }
+                            }
+                            Err(_) => break,
+                        }
+                    }
+                });
+                loop {
+                    match rx.recv_timeout(std::time::Duration::from_secs(per_input_timeout_s)) {
+                        Ok(l) => {
+                            let (i, r) = l.split_once(' ').unwrap_or((&l, ""));
+                            if let Ok(i) = i.parse::<usize>() {
+                                res.push((i, r.to_string()));
+                                next = i + 1;
+                            }
+                            if next >= hi {
+                                break;
+                            }
+                        }
+                        Err(std::sync::mpsc::RecvTimeoutError::Timeout) => {
+                            let _ = ch.kill();
+                            res.push((next, "timeout m=0 t=0".into()));
+                            next += 1;
+                            break;
+                        }
+                        Err(std::sync::mpsc::RecvTimeoutError::Disconnected) => {
+                            // the child died while working on case `next`
+                            if next < hi {
+                                let st = ch.wait().ok();
+                                let how = st.map(|s| format!("{}", s).replace(' ', "_")).unwrap_or_default();
+                                res.push((next, format!("abort {} m=0 t=0", how)));
+                                next += 1;
+                            }
+                            break;
+                        }
+                    }
+                }
+                let _ = ch.kill();
+                let _ = ch.wait();
+                let _ = rd.join();
+            }
+            res
+        }));
+    }
+    let mut out = vec![String::new(); n];
+    for h in handles {
+        for (i, r) in h.join().unwrap() {
+            if i < n {
+                out[i] = r;
+            }
+        }
+    }
+    out
+}
+
+// ------------------------------------------------------------------ generators
+fn be16(v: u16) -> [u8; 2] {
+    v.to_be_bytes()
+}
+fn be32(v: i32) -> [u8; 4] {
+    v.to_be_bytes()
+}
+fn s16(s: &[u8]) -> Vec<u8> {
+    let mut v = be16(s.len() as u16).to_vec();
+    v.extend_from_slice(s);
+    v
+}
+fn frame(flags: u8, opcode: u8, body: &[u8]) -> Vec<u8> {
+    let mut f = vec![0x84, flags, 0, 1, opcode];
+    f.extend_from_slice(&(body.len() as u32).to_be_bytes());
+    f.extend_from_slice(body);
+    f
+}
+/// RESULT/Rows with one column whose type is given in the binary notation
+fn rows_with_type(ty: &[u8]) -> Vec<u8> {
+    let mut b = vec![];
+    b.extend_from_slice(&be32(2));
+    b.extend_from_slice(&be32(1));
+    b.extend_from_slice(&be32(1));
+    for s in ["ks", "t", "c"] {
+        b.extend_from_slice(&s16(s.as_bytes()));
+    }
+    b.extend_from_slice(ty);
+    b.extend_from_slice(&be32(0));
+    frame(0, 8, &b)
+}
+fn custom_ty(s: &str) -> Vec<u8> {
+    let mut v = be16(0).to_vec();
+    v.extend_from_slice(&s16(s.as_bytes()));
+    v
+}
+const FT0: &str = "rl:-,mid:0";
+
+/// the inputs that crashed / hung the decoders before the repairs (DESIGN §8 F3, F4, F6 and the
+/// custom-type / lz4 findings of this check): reverting a repair makes these `abort`/`timeout`
+fn known_reproducers() -> Vec<String> {
+    let mut v: Vec<(String, String, Vec<u8>)> = vec![];
+    let mut add = |mode: &str, f: Vec<u8>| v.push((FT0.to_string(), mode.to_string(), f));
+    // F4: col_count = i32::MAX in a 30-byte frame; pk_count = i32::MAX
+    let mut b = vec![];
+    b.extend_from_slice(&be32(2));
+    b.extend_from_slice(&be32(1));
+    b.extend_from_slice(&be32(i32::MAX));
+    b.extend_from_slice(&s16(b"k"));
+    b.extend_from_slice(&s16(b"t"));
+    b.extend_from_slice(&[0, 0, 0]);
+    add("2n", frame(0, 8, &b));
+    let mut b = vec![];
+    b.extend_from_slice(&be32(4));
+    b.extend_from_slice(&s16(b"id"));
+    b.extend_from_slice(&be32(0));
+    b.extend_from_slice(&be32(i32::MAX));
+    b.extend_from_slice(&be32(i32::MAX));
+    add("2n", frame(0, 8, &b));
+    let mut b = vec![];
+    b.extend_from_slice(&be32(4));
+    b.extend_from_slice(&s16(b"id"));
+    b.extend_from_slice(&be32(0));
+    b.extend_from_slice(&be32(0));
+    b.extend_from_slice(&be32(0));
+    b.extend_from_slice(&be32(0));
+    b.extend_from_slice(&be32(i32::MAX));
+    add("1n", frame(0, 8, &b));
+    // F6: header announcing a 4 GiB / 2 GiB body, then EOF
+    for len in [0xFFFF_FFFFu32, 0x7FFF_FFFF, 0x4000_0000, (1 << 20) + 1] {
+        let mut f = vec![0x84, 0, 0, 1, 8];
+        f.extend_from_slice(&len.to_be_bytes());
+        f.extend_from_slice(&[0, 0, 0, 1]);
+        add("2n", f);
+    }
+    // F3: list<list<...>> nested 10^5 deep (200 KB), also 128 / 129 / 130 / 1000
+    for depth in [128usize, 129, 130, 1000, 100_000] {
+        let mut ty = vec![];
+        for _ in 0..depth {
+            ty.extend_from_slice(&be16(0x20));
+        }
+        ty.extend_from_slice(&be16(9));
+        add("2n", rows_with_type(&ty));
+    }
+    // custom type strings: unclosed / stuck parameter lists (hang), exponential re-parse, deep nesting
+    for s in [
+        "ListType(", "ListType(Int32Type", "ListType(Int32Type,", "ListType($)", "ListType($", "MapType(a$",
+        "SetType(Int32Type $ )", "FrozenType(=)", "MapType(Int32Type", "MapType(Int32Type)", "TupleType(",
+        "UserType(ks,61,62:", "VectorType(", "VectorType(Int32Type", "VectorType(Int32Type, 70000)",
+    ] {
+        add("2n", rows_with_type(&custom_ty(s)));
+    }
+    for n in [22usize, 60, 127, 128, 129, 2500] {
+        add("2n", rows_with_type(&custom_ty(&"ListType(Int32Type,".repeat(n))));
+        add("2n", rows_with_type(&custom_ty(&format!("{}Int32Type{}", "SetType(".repeat(n), ")".repeat(n)))));
+        add("2n", rows_with_type(&custom_ty(&format!("{}Int32Type", "FrozenType(".repeat(n)))));
+    }
+    // binary nesting 128 with a custom string nested 127 inside
+    {
+        let mut ty = vec![];
+        for _ in 0..128 {
+            ty.extend_from_slice(&be16(0x22));
+        }
+        ty.extend_from_slice(&custom_ty(&format!("{}Int32Type{}", "ListType(".repeat(127), ")".repeat(127))));
+        add("2n", rows_with_type(&ty));
+    }
+    // lz4 body claiming 4 GiB / 1 GiB of output
+    for claimed in [0xFFFF_FFFFu32, 0x4000_0000, 3000] {
+        let mut body = claimed.to_be_bytes().to_vec();
+        body.extend_from_slice(&[0x10, 0x41, 0, 0, 0]);
+        add("2l", frame(1, 2, &body));
+    }
+    // u16 counts without data: string list / multimap / warnings / payload, nested udt / tuple 129 levels
+    add("2n", frame(0, 6, &[0xFF, 0xFF]));
+    add("2n", frame(0, 6, &[0xFF, 0xFF, 0, 1, b'a', 0xFF, 0xFF]));
+    add("2n", frame(8, 2, &[0xFF, 0xFF]));
+    add("2n", frame(4, 2, &[0xFF, 0xFF]));
+    {
+        let mut ty = vec![];
+        for _ in 0..129 {
+            ty.extend_from_slice(&be16(0x30));
+            ty.extend_from_slice(&s16(b""));
+            ty.extend_from_slice(&s16(b""));
+            ty.extend_from_slice(&be16(0xFFFF));
+            ty.extend_from_slice(&s16(b""));
+        }
+        add("2n", rows_with_type(&ty));
+        let mut ty = vec![];
+        for _ in 0..129 {
+            ty.extend_from_slice(&be16(0x31));
+            ty.extend_from_slice(&be16(0xFFFF));
+        }
+        add("2n", rows_with_type(&ty));
+    }
+    // rows_count = i32::MAX with one column and no data; with no columns
+    let mut b = vec![];
+    b.extend_from_slice(&be32(2));
+    b.extend_from_slice(&be32(1));
+    b.extend_from_slice(&be32(1));
+    for s in ["ks", "t", "c"] {
+        b.extend_from_slice(&s16(s.as_bytes()));
+    }
+    b.extend_from_slice(&be16(9));
+    b.extend_from_slice(&be32(i32::MAX));
+    add("2n", frame(0, 8, &b));
+    let mut b = vec![];
+    b.extend_from_slice(&be32(2));
+    b.extend_from_slice(&be32(0));
+    b.extend_from_slice(&be32(0));
+    b.extend_from_slice(&be32(i32::MAX));
+    add("2n", frame(0, 8, &b));
+    v.into_iter().map(|(ft, mode, f)| format!("K {} {} {}", ft, mode, hex_bytes(&f))).collect()
+}
+
+fn mutate(r: &mut Rng, f: &[u8]) -> Vec<u8> {
+    let mut m = f.to_vec();
+    if m.is_empty() {
+        return m;
+    }
+    let body0 = 9.min(m.len() - 1);
+    match r.below(12) {
+        // 4-byte field at a random offset of the body <- boundary value
+        0..=3 => {
+            let off = r.range(body0 as u64, (m.len() - 1) as u64) as usize;
+            let v: i32 = *r.pick(&[0, -1, -2, i32::MAX, i32::MIN, 1, 65535, 65536, 0x7FFF_FFFE]);
+            for (i, b) in v.to_be_bytes().iter().enumerate() {
+                if off + i < m.len() {
+                    m[off + i] = *b;
+                }
+            }
+        }
+        // 2-byte field <- boundary value / type id
+        4..=6 => {
+            let off = r.range(body0 as u64, (m.len() - 1) as u64) as usize;
+            let v: u16 = *r.pick(&[0, 1, 0xFFFF, 0x7FFF, 0x8000, 0x20, 0x21, 0x22, 0x30, 0x31, 0x0A, 0x16, 0x80]);
+            for (i, b) in v.to_be_bytes().iter().enumerate() {
+                if off + i < m.len() {
+                    m[off + i] = *b;
+                }
+            }
+        }
+        // off by one on a byte
+        7 => {
+            let off = r.below(m.len() as u64) as usize;
+            m[off] = if r.bool() { m[off].wrapping_add(1) } else { m[off].wrapping_sub(1) };
+        }
+        // flip a bit (flags, ids, utf-8 lead bytes)
+        8 => {
+            let off = r.below(m.len() as u64) as usize;
+            m[off] ^= 1 << r.below(8);
+        }
+        // header fields: version / flags / opcode / length
+        9 => match r.below(4) {
+            0 => m[0] = *r.pick(&[0x04, 0x83, 0x85, 0x80, 0xFF]),
+            1 => {
+                if m.len() > 1 {
+                    m[1] = r.u64() as u8 & 0x1F;
+                }
+            }
+            2 => {
+                if m.len() > 4 {
+                    m[4] = *r.pick(&[0, 1, 2, 3, 5, 6, 7, 8, 12, 14, 16, 17, 0xFF]);
+                }
+            }
+            _ => {
+                if m.len() >= 9 {
+                    let l = u32::from_be_bytes([m[5], m[6], m[7], m[8]]);
+                    let nl = *r.pick(&[l.wrapping_add(1), l.wrapping_sub(1), 0, l / 2, 0xFFFF_FFFF]);
+                    m[5..9].copy_from_slice(&nl.to_be_bytes());
+                }
+            }
+        },
+        // delete / insert a byte in the body, fixing the length
+        10 => {
+            if m.len() > 10 {
+                let off = r.range(9, (m.len() - 1) as u64) as usize;
+                if r.bool() {
+                    m.remove(off);
+                } else {
+                    m.insert(off, r.u64() as u8);
+                }
+                let l = (m.len() - 9) as u32;
+                m[5..9].copy_from_slice(&l.to_be_bytes());
+            }
+        }
+        // overwrite a run with random bytes
+        _ => {
+            let off = r.below(m.len() as u64) as usize;
+            let k = r.range(1, 6) as usize;
+            for i in 0..k {
+                if off + i < m.len() {
+                    m[off + i] = r.u64() as u8;
+                }
+            }
+        }
+    }
+    m
+}
+
+fn gen_cases(a: &Args) -> Vec<String> {
+    let mut r = Rng::new(a.seed);
+    let mut cases = known_reproducers();
+    // (a) well-formed frames from the extracted encoder
+    let nbase = (a.n / 60).max(50);
+    let drv = std::env::var("VERIF_C08_DRIVER").unwrap_or_else(|_| "/verif/ocaml/c08/driver".into());
+    let out = std::process::Command::new(&drv)
+        .args(["gen", &a.seed.to_string(), &nbase.to_string()])
+        .output()
+        .expect("run ocaml/c08/driver gen");
+    let base: Vec<(String, String, Vec<u8>)> = String::from_utf8_lossy(&out.stdout)
+        .lines()
+        .filter_map(|l| {
+            let f: Vec<&str> = l.split_whitespace().collect();
+            if f.len() == 3 { Some((f[0].to_string(), f[1].to_string(), unhex(f[2]))) } else { None }
+        })
+        .collect();
+    assert!(!base.is_empty(), "driver gen produced nothing");
+    let per = ((a.n as usize).saturating_sub(cases.len()) / base.len()).max(8);
+    for (ft, v, f) in &base {
+        let mode = format!("{}n", v);
+        cases.push(format!("W {} {} {}", ft, mode, hex_bytes(f)));
+        if f.len() > 300_000 {
+            continue;
+        }
+        let big = f.len() > 4000;
+        // (b) every truncation point (sampled for long frames)
+        let budget = if big { 6 } else { per * 2 / 5 };
+        if f.len() <= budget {
+            for k in 0..f.len() {
+                cases.push(format!("T {} {} {}", ft, mode, hex_bytes(&f[..k])));
+            }
+        } else {
+            for _ in 0..budget {
+                let k = r.below(f.len() as u64) as usize;
+                cases.push(format!("T {} {} {}", ft, mode, hex_bytes(&f[..k])));
+            }
+        }
+        // body cut with a consistent header length
+        if f.len() > 9 {
+            for _ in 0..(if big { 2 } else { per / 8 + 1 }) {
+                let k = r.range(9, (f.len() - 1) as u64) as usize;
+                let mut g = f[..k].to_vec();
+                let l = (k - 9) as u32;
+                g[5..9].copy_from_slice(&l.to_be_bytes());
+                cases.push(format!("U {} {} {}", ft, mode, hex_bytes(&g)));
+            }
+        }
+        // (c) mutations
+        for _ in 0..(if big { 4 } else { per * 2 / 5 }) {
+            let mut m = mutate(&mut r, f);
+            if r.chance(1, 4) {
+                m = mutate(&mut r, &m);
+            }
+            cases.push(format!("M {} {} {}", ft, mode, hex_bytes(&m)));
+        }
+        // compressed variants (real codec), also mutated and under the wrong / no codec
+        if f.len() > 9 && !big && r.chance(1, 3) {
+            let comp = if r.bool() { Compression::Lz4 } else { Compression::Snappy };
+            let mut g = f[..9].to_vec();
+            g[1] |= 1;
+            if scylla_cql::frame::compress_append(&f[9..], comp, &mut g).is_ok() {
+                let l = (g.len() - 9) as u32;
+                g[5..9].copy_from_slice(&l.to_be_bytes());
+                let c = if comp == Compression::Lz4 { 'l' } else { 's' };
+                cases.push(format!("C {} {}{} {}", ft, v, c, hex_bytes(&g)));
+                let other = *r.pick(&['n', 'l', 's']);
+                cases.push(format!("C {} {}{} {}", ft, v, other, hex_bytes(&g)));
+                let m = mutate(&mut r, &g);
+                cases.push(format!("C {} {}{} {}", ft, v, c, hex_bytes(&m)));
+            }
+        }
+    }
+    // (d) random bytes, plain and behind a valid header
+    let nrand = (a.n / 10).max(100);
+    for _ in 0..nrand {
+        let len = match r.below(4) {
+            0 => r.below(12),
+            1 => r.below(40),
+            _ => r.below(200),
+        } as usize;
+        let mut f = r.bytes(len);
+        if r.chance(2, 3) {
+            let op = *r.pick(&[0u8, 2, 3, 6, 8, 8, 8, 12, 14, 16]);
+            f = frame((r.u64() as u8) & 0x0E, op, &f);
+        }
+        let ft = if r.bool() { FT0.to_string() } else { "rl:4321,mid:1".to_string() };
+        cases.push(format!("R {} {}n {}", ft, if r.bool() { 1 } else { 2 }, hex_bytes(&f)));
+    }
+    cases
+}
+
+fn main() {
+    let argv: Vec<String> = std::env::args().collect();
+    if argv.len() >= 5 && argv[1] == "--child" {
+        quiet_panics();
+        child_main(&argv[2], argv[3].parse().unwrap(), argv[4].parse().unwrap());
+        return;
+    }
+    let a = parse_args();
+    let cases: Vec<String> = match &a.replay {
+        Some(p) => read_cases(p),
+        None => gen_cases(&a),
+    };
+    let infile = format!("{}.child.in", a.out);
+    let timeout_s = if a.tier == "thorough" { 20 } else { 10 };
+    let res = run_in_children(&cases, &infile, timeout_s, 6);
+    let _ = std::fs::remove_file(&infile);
+    let mut out = Out::create(&a.out);
+    for (c, r) in cases.iter().zip(res.iter()) {
+        out.case(c, if r.is_empty() { "error no-result m=0 t=0" } else { r });
+    }
+    out.finish();
 }
